@@ -46,7 +46,10 @@ S4a == [type |-> "object", anyOf |-> <<AltId, AltName>>]
 S5 == [type |-> "object", required |-> <<"s">>] @@ Props
 S6 == [type |-> "object", pk |-> <<"n", "s">>, ps |-> <<TInt, [type |-> "string", minLength |-> 1]>>]
 
-SchemaOf(c) == IF c.family = "text" THEN TextSchema
+(* SN: the body may be the JSON value null (a body that is there and says null is not an absent body) *)
+SN == [type |-> "object", nullable |-> TRUE] @@ Props
+
+SchemaOf(c) == IF c.family = "text" THEN TextSchema ELSE IF c.schema = "SN" THEN SN
                ELSE CASE c.schema = "S1" -> S1 [] c.schema = "S3" -> S3 [] c.schema = "S4" -> S4 [] c.schema = "S4a" -> S4a
                       [] c.schema = "S5" -> S5 [] c.schema = "S6" -> S6 [] OTHER -> S2
 
